@@ -592,6 +592,23 @@ def install_time() -> None:
     _time.perf_counter = sim_monotonic
     _time.perf_counter_ns = sim_monotonic_ns
     _time.sleep = sim_sleep
+    # a timed wait on a condition (threading.Event.wait, Condition.wait)
+    # really waits -- other threads get their time -- and, when it times
+    # out, the simulated clock has advanced by the time-out as well: a loop
+    # `while monotonic() < deadline: event.wait(0.05)` sees its deadline pass
+    import threading as _threading  # noqa: PLC0415
+
+    if not getattr(_threading.Condition.wait, "_simlab", False):
+        real_wait = _threading.Condition.wait
+
+        def wait(self, timeout=None):
+            got = real_wait(self, timeout)
+            if timeout is not None and not got:
+                sim_sleep(timeout)
+            return got
+
+        wait._simlab = True
+        _threading.Condition.wait = wait
 
 
 def install(aoef: bool = True, audio: bool = False) -> dict:
